@@ -218,9 +218,20 @@ def run (ctx):
     if adds:
       tv = adds[0].args[0]
       tdef = q.single_def(gd.node, tv.id) if isinstance(tv, ast.Name) else tv
+      if tdef is None and isinstance(tv, ast.Name):
+        # several definitions: every origin must be a fresh object; one that comes from outside (a parameter, an attribute) can
+        # be handed in twice, and a set keeps one copy
+        ggd = q.cfg_of(gd); an = q.enclosing_stmt_node(ggd, adds[0])
+        pv = q.provenance(ggd, an, tv.id) if an is not None else []
+        outside = [(kind, val) for d_, kind, val in pv if not (kind == 'assign' and isinstance(val, ast.Call) and call_name(val) == 'object' and not val.args)]
+        if pv and outside:
+          ctx.bad('R-AGREE', gd, "each deferral is identified by a fresh object",
+                  "the token `%s` can be %s, a value supplied from outside: two deferrals taken with the same value (e.g. by two handlers of one GoingUp event) occupy one slot of the set, the first release continues start-up while the other is still held and the second release raises"
+                  % (tv.id, "a parameter" if outside[0][0] == 'param' else "`%s`" % norm(outside[0][1])), (mod, adds[0]), 'D6')
+          tdef = False
       fresh = isinstance(tdef, ast.Call) and call_name(tdef) == 'object' and not tdef.args
-      derived = tdef is not None and '_go_up_deferrals' in norm(tdef)
-      ctx.ob('R-AGREE', gd, "each deferral is identified by a fresh object", fresh if (fresh or derived) else None,
+      derived = tdef is not None and tdef is not False and '_go_up_deferrals' in norm(tdef)
+      if tdef is not False: ctx.ob('R-AGREE', gd, "each deferral is identified by a fresh object", fresh if (fresh or derived) else None,
              "token = object()" if fresh else ("the token `%s` is computed from the current set (%s): after take, take, release, take two outstanding deferrals share a token - one release "
              "withdraws both and UpEvent is raised while a deferral is still held" % (norm(tv), norm(tdef)) if derived else "token `%s` not recognised as fresh" % norm(tdef)), (mod, adds[0]), 'D6')
       ctx.ob('R-AGREE', gd, "the closure releases the token it registered", tok and tok[0] == norm(tv), "add(%s) / remove(%s)" % (norm(tv), tok[0] if tok else None), (mod, adds[0]), 'D6')
@@ -255,6 +266,34 @@ def run (ctx):
     ctx.ob('R-ORDER', st2, "nothing that can abort stage 2 precedes raiseEvent(UpEvent())", not early, "UpEvent is raised first" if not early else
            "`%s` runs before UpEvent is raised and can leave by `%s` (%s:%s): stage 2 runs on whichever thread releases the last deferral and is never retried, so UpEvent is then never raised"
            % (norm(early[0][0])[:40], early[0][2][1].text(60), early[0][2][0].name, early[0][2][1].line), (mod, early[0][0]) if early else st2, 'D6')
+  # readiness is membership in the registry and nothing else: an attribute or method of the core object that happens to have
+  # the name of an awaited component is not a component
+  hc = core.methods.get('hasComponent')
+  if hc is not None:
+    ctx.analysed(hc); gh = q.cfg_of(hc)
+    def hc_under (name, registered):
+      is_in_ = lambda e: isinstance(e, ast.Compare) and len(e.ops) == 1 and isinstance(e.ops[0], ast.In) and norm(e.comparators[0]) == 'self.components'
+      is_nin_ = lambda e: isinstance(e, ast.Compare) and len(e.ops) == 1 and isinstance(e.ops[0], ast.NotIn) and norm(e.comparators[0]) == 'self.components'
+      is_get_ = lambda e: isinstance(e, ast.Call) and call_name(e) == 'get' and norm(e.func.value) == 'self.components'
+      def hook (call, env=None):
+        # hasattr/getattr on the core object see every method and attribute of the class as well as registered components
+        if isinstance(call.func, ast.Name) and call.func.id == 'hasattr' and len(call.args) == 2 and norm(call.args[0]) == 'self':
+          return (True, registered or core.find_method(name) is not None)
+        return (False, None)
+      env = q.Env({hc.params[1]: name}, [(is_in_, registered), (is_nin_, not registered), (is_get_, 'component' if registered else None)], hook)
+      out = set()
+      for p_, e_ in q.paths_under(repo, mod, gh, env, gh.entry, [n for n in gh.nodes if n.kind == 'return'], core, limit=30):
+        try: out.add(bool(q.eval_env2(repo, mod, p_[-1].ast.value, e_, core)))
+        except Exception: out.add('?')
+      return out
+    r_reg, r_meth, r_none = hc_under('topology', True), hc_under('quit', False), hc_under('nosuchthing', False)
+    if '?' in r_reg | r_meth | r_none or not r_reg or not r_meth:
+      ctx.undecided('R-AGREE', hc, "hasComponent is membership in the registry", "not evaluable (%s / %s / %s)" % (sorted(map(str, r_reg)), sorted(map(str, r_meth)), sorted(map(str, r_none))), hc, 'D1')
+    else:
+      good = r_reg == {True} and r_meth == {False} and r_none == {False}
+      ctx.ob('R-AGREE', hc, "hasComponent is membership in the registry", good, "registered -> True; unregistered (also when the core object has an attribute of that name) -> False" if good else
+             "hasComponent('quit') with no such component registered evaluates to %s (registered: %s, unknown name: %s): a dependent that names a component whose name is also an attribute of the core object is called at once and never when the real component registers"
+             % (sorted(r_meth), sorted(r_reg), sorted(r_none)), hc, 'D1')
   # readiness is decided by membership (hasComponent); the wiring then fetches each component through core.<name>: that
   # lookup must succeed for every registered object, also one that is falsy (an empty container-like component)
   ga = core.methods.get('__getattr__')
